@@ -19,7 +19,7 @@ RULE = (
     "one run = a generated project (several dialects via nested configs, jinja/placeholder/raw templater, noqa, a "
     "parse-error file, a template-error file, multi-CTE files, SQL of sqlfluff's own rule test cases with their dialect as an "
     "in-file directive, and in 30 % of runs 'latch bait': two files that share the rule configuration but differ in a "
-    "per-file fact rules look at - dialect, ignore_templated_areas) and a history of 5-12 operations executed in ONE "
+    "per-file fact rules look at - dialect, ignore_templated_areas) and a history of 3-6 operations (plus environment events) executed in ONE "
     "long-lived node: lint_paths over subsets (serial / SimPool), CLI lint in json/yaml/human/github-annotation "
     "formats, sqlfluff.lint(str), lint_string, CLI parse, CLI render, interleaved with environment events (listing "
     "reshuffle, clock jump, config-cache eviction, restart). Read-only: during every op the disk journal holds no "
@@ -31,7 +31,7 @@ RULE = (
     "file set / entry point; distinct = distinct (world digest, op digest, history-prefix digest)."
 )
 TIERS = {
-    "quick": {"runs": 80, "budget_s": 70, "min_runs": 4, "run_timeout_s": 300},
+    "quick": {"runs": 120, "budget_s": 90, "min_runs": 4, "run_timeout_s": 300},
     "thorough": {"runs": 6000, "budget_s": 800, "min_runs": 40, "run_timeout_s": 600},
 }
 COMPONENTS_REAL = [
@@ -49,7 +49,7 @@ def gen_history(rng: Rng, world: dict) -> list[dict]:
     cwd = world["cwd"]
     rels = [os.path.relpath(f, cwd) for f in files]
     ops: list[dict] = []
-    n = rng.randint(4, 9)
+    n = rng.randint(3, 6)
     distinct: list[dict] = []
     whole_at = rng.randrange(n) if rng.chance(0.6) else -1
     for step in range(n):
